@@ -9,11 +9,11 @@ WT="/tmp/harmwt-$PID-$$"
 git -C /repo worktree add -q --detach "$WT" HEAD || exit 2
 export VERIF_WORK="/var/tmp/verif-work/harm-$PID-$$"
 trap 'git -C /repo worktree remove --force "$WT" >/dev/null 2>&1; rm -rf "$VERIF_WORK"' EXIT
-if ! git -C "$WT" apply "$SD/patch.diff"; then echo "RESULT $PID $SD patch-does-not-apply"; exit 3; fi
 P="n/a"
+[ -f "$SD/probe.py" ] && a="$(cd /var/tmp && PYTHONPATH="$WT/src" PYTHONHASHSEED=0 timeout 300 /venv/bin/python "$SD/probe.py" 2>/dev/null | tail -1 | sha1sum)"
+if ! git -C "$WT" apply "$SD/patch.diff"; then echo "RESULT $PID $SD patch-does-not-apply"; exit 3; fi
 if [ -f "$SD/probe.py" ]; then
-  a="$(cd /var/tmp && PYTHONPATH=/repo/src timeout 300 /venv/bin/python "$SD/probe.py" 2>/dev/null | tail -1 | sha1sum)"
-  b="$(cd /var/tmp && PYTHONPATH="$WT/src" timeout 300 /venv/bin/python "$SD/probe.py" 2>/dev/null | tail -1 | sha1sum)"
+  b="$(cd /var/tmp && PYTHONPATH="$WT/src" PYTHONHASHSEED=0 timeout 300 /venv/bin/python "$SD/probe.py" 2>/dev/null | tail -1 | sha1sum)"
   [ "$a" = "$b" ] && P="identical" || P="DIFFERS"
 fi
 S="skipped"
